@@ -5,12 +5,14 @@ package props
 import (
 	"encoding/json"
 	"fmt"
+	"image/color"
 	"math"
 	"runtime"
 	"strings"
 	"sync"
 	"sync/atomic"
 	"time"
+	"verifharness/internal/atinit"
 
 	"github.com/mandykoh/prism/adobergb"
 	"github.com/mandykoh/prism/ciexyz"
@@ -236,8 +238,46 @@ func runC03(r *core.Run) {
 	// The very first XYZ calls of the process are made by eight goroutines at once, in a
 	// variant-dependent direction (lazily derived matrices must not be observable), and judged
 	// against the float64 derivation from the declared primaries.
+	if atinit.Records != nil {
+		// this child converted during package initialisation of the monitor binary (a package-level
+		// variable of an importing program), before anything else in the process ran
+		n := 0
+		for _, rec := range atinit.Records {
+			s := spaceByName(rec.Space)
+			if s == nil || (rec.Call != "ToXYZ" && rec.Call != "FromXYZ") {
+				continue
+			}
+			rr, gg, bb, ww := c04DeclXY(s)
+			ref, ok := refcolor.RGBToXYZ(rr, gg, bb, ww)
+			if !ok {
+				continue
+			}
+			m := ref
+			if rec.Call == "FromXYZ" {
+				m, _ = ref.Inv()
+			}
+			want := m.MulV(refcolor.Vec{float64(rec.In[0]), float64(rec.In[1]), float64(rec.In[2])})
+			n++
+			for i := 0; i < 3; i++ {
+				if !(math.Abs(float64(rec.Out[i])-want[i]) <= 1e-5) {
+					r.Violate("first-use", rec.Space+"/at-init-"+rec.Call, fmt.Sprintf("%s: %s of %v called from package initialisation of the importing program (variant %q) gave %v, the declared primaries fix %v", rec.Space, rec.Call, rec.In, r.Variant, rec.Out, want), c03Case{rec.Space, "first-use", rec.In, nil})
+					break
+				}
+			}
+		}
+		r.AddEvals(int64(n))
+		if n == 0 {
+			r.Inconclusive("atinit child recorded nothing")
+		}
+	}
 	{
 		fromFirst := strings.Contains(r.Variant, "xyzfirst")
+		// "mixedD", "mixedT", "mixedE", "mixedR": which lazily generated table the odd goroutines ask for
+		mixed := strings.Contains(r.Variant, "mixed")
+		mixedKind := byte('D')
+		if i := strings.Index(r.Variant, "mixed"); i >= 0 && i+5 < len(r.Variant) {
+			mixedKind = r.Variant[i+5]
+		}
 		var wg sync.WaitGroup
 		stagger := strings.Contains(r.Variant, "stagger")
 		var arrive [8]atomic.Int32
@@ -281,6 +321,29 @@ func runC03(r *core.Run) {
 							runtime.Gosched()
 						}
 					}
+					if mixed && g%2 == 1 {
+						// the odd goroutines make the space's first use of one of its lazily generated
+						// tables at this moment; the even ones arrive with their first XYZ conversions
+						// while that generation is in progress
+						switch mixedKind {
+						case 'D':
+							if s.From16 != nil {
+								_ = s.From16(0x8000)
+							} else {
+								_, _ = s.FromEncoded(color.RGBA64{R: 0x8000, G: 1, B: 2, A: 0xffff})
+							}
+						case 'T':
+							if s.To16 != nil {
+								_ = s.To16(0.5)
+							} else {
+								_ = s.ToRGBA64(linear.RGB{R: 0.5, G: 0.25, B: 0.125}, 1)
+							}
+						case 'E':
+							_, _ = s.FromEncoded(color.NRGBA64{R: 0x1234, G: 0x5678, B: 0x9abc, A: 0xffff})
+						default:
+							_ = s.ToRGBA64(linear.RGB{R: 0.5, G: 0.25, B: 0.125}, 1)
+						}
+					}
 					if k := fineStep(r.Variant); k > 0 {
 						x := 0
 						for i := 0; i < g*k; i++ {
@@ -310,6 +373,36 @@ func runC03(r *core.Run) {
 		close(start)
 		wg.Wait()
 		r.AddEvals(8 * 8)
+		// once the burst is over the conversions are asked again, one after the other: whatever the
+		// overlapping first uses left behind is what the rest of the process lives with
+		for _, s := range libSpaces {
+			rr, gg, bb, ww := c04DeclXY(s)
+			ref, ok := refcolor.RGBToXYZ(rr, gg, bb, ww)
+			if !ok {
+				continue
+			}
+			refInv, _ := ref.Inv()
+			for rep := 0; rep < 2; rep++ {
+				for _, in := range atinit.Inputs {
+					v := refcolor.Vec{float64(in[0]), float64(in[1]), float64(in[2])}
+					x := s.ToXYZ(linear.RGB{R: in[0], G: in[1], B: in[2]})
+					c := s.FromXYZ(ciexyz.Color{X: in[0], Y: in[1], Z: in[2]})
+					w1, w2 := ref.MulV(v), refInv.MulV(v)
+					g1, g2 := [3]float32{x.X, x.Y, x.Z}, [3]float32{c.R, c.G, c.B}
+					for i := 0; i < 3; i++ {
+						if !(math.Abs(float64(g1[i])-w1[i]) <= 1e-5) {
+							r.Violate("first-use", s.Name+"/after-first-use-RGB->XYZ", fmt.Sprintf("%s: after the overlapping first uses of the process (variant %q) RGB->XYZ of %v gives %v, the declared primaries fix %v", s.Name, r.Variant, in, g1, w1), c03Case{s.Name, "first-use", in, nil})
+							break
+						}
+						if !(math.Abs(float64(g2[i])-w2[i]) <= 1e-5) {
+							r.Violate("first-use", s.Name+"/after-first-use-XYZ->RGB", fmt.Sprintf("%s: after the overlapping first uses of the process (variant %q) XYZ->RGB of %v gives %v, the declared primaries fix %v", s.Name, r.Variant, in, g2, w2), c03Case{s.Name, "first-use", in, nil})
+							break
+						}
+					}
+				}
+			}
+			r.AddEvals(20)
+		}
 		if isBurst(r.Variant) {
 			return
 		}
@@ -597,10 +690,12 @@ func runC03(r *core.Run) {
 		}
 	}
 	if r.Variant == "" {
-		for _, v := range append([]string{"xyzfirst", "xyzfirst+rev@2", "rev@1", "warm@2", "decfirst+encfirst@1", "genfirst@2", "genfirst+xyzfirst+rev@1", "rot1+genfirst@1", "rot2+genfirst+xyzfirst@3", "burst+cross@8", "burst+cross+xyzfirst@16", "burst+cross+stagger@4", "burst+cross+rev@16", "burst+cross+xyzfirst+rev@8", "burst+cross@2", "burst+cross+fine10@16", "burst+cross+fine60@8", "burst+cross+fine250+xyzfirst@16", "burst+cross+fine30+rev@8", "burst+xyzfirst@4", "burst+xyzfirst+stagger@8"}, burstVariants...) {
+		for _, v := range append([]string{"xyzfirst", "xyzfirst+rev@2", "rev@1", "warm@2", "decfirst+encfirst@1", "genfirst@2", "genfirst+xyzfirst+rev@1", "rot1+genfirst@1", "rot2+genfirst+xyzfirst@3", "burst+cross@8", "burst+cross+xyzfirst@16", "burst+cross+stagger@4", "burst+cross+rev@16", "burst+cross+xyzfirst+rev@8", "burst+cross@2", "burst+cross+fine10@16", "burst+cross+fine60@8", "burst+cross+fine250+xyzfirst@16", "burst+cross+fine30+rev@8", "burst+xyzfirst@4", "burst+xyzfirst+stagger@8",
+			"atinit+burst@1", "atinit+burst@16", "atinit+burst+rev@2", "atinit+burst@4",
+			"burst+mixedD@16", "burst+mixedD+fine1000@16", "burst+mixedT+fine10000@16", "burst+mixedD+fine100000@16", "burst+mixedT+fine400000@8", "burst+mixedE+cross+fine30000@16", "burst+mixedR+rev+fine100000@4", "burst+mixedD+fine200000@2", "burst+mixedT+xyzfirst+fine50000@16", "burst+mixedE+fine3000@16", "burst+mixedR+fine20000@16", "burst+mixedT+fine100@16"}, burstVariants...) {
 			r.RunVariantChild(v, 10*time.Minute, false)
 		}
-		r.Obs("fresh_process_variants", []string{"xyzfirst", "xyzfirst+rev@2", "rev@1", "warm@2", "decfirst+encfirst@1", "genfirst@2", "genfirst+xyzfirst+rev@1", "rot1+genfirst@1", "rot2+genfirst+xyzfirst@3", "burst+cross@8", "burst+cross+xyzfirst@16", "burst+cross+stagger@4", "burst+cross+rev@16", "burst+cross+xyzfirst+rev@8", "burst+cross@2", "burst+cross+fine10@16", "burst+cross+fine60@8", "burst+cross+fine250+xyzfirst@16", "burst+cross+fine30+rev@8"})
+		r.Obs("fresh_process_variants", []string{"xyzfirst", "xyzfirst+rev@2", "rev@1", "warm@2", "decfirst+encfirst@1", "genfirst@2", "genfirst+xyzfirst+rev@1", "rot1+genfirst@1", "rot2+genfirst+xyzfirst@3", "burst+cross@8", "burst+cross+xyzfirst@16", "burst+cross+stagger@4", "burst+cross+rev@16", "burst+cross+xyzfirst+rev@8", "burst+cross@2", "burst+cross+fine10@16", "burst+cross+fine60@8", "burst+cross+fine250+xyzfirst@16", "burst+cross+fine30+rev@8", "atinit+burst@1", "atinit+burst@16", "atinit+burst+rev@2", "atinit+burst@4", "burst+mixedD@16", "burst+mixedD+fine1000@16", "burst+mixedT+fine10000@16", "burst+mixedD+fine100000@16", "burst+mixedT+fine400000@8", "burst+mixedE+cross+fine30000@16", "burst+mixedR+rev+fine100000@4", "burst+mixedD+fine200000@2", "burst+mixedT+xyzfirst+fine50000@16", "burst+mixedE+fine3000@16", "burst+mixedR+fine20000@16", "burst+mixedT+fine100@16"})
 	}
 	r.Obs("max_coefficient_error_per_space", maxCoef)
 	r.Obs("max_scaled_linearity_or_roundtrip_error_per_space", worst)
